@@ -266,7 +266,10 @@ class Indicator(_DomainObject):
             except AttributeError:
                 pat_ver = '2.1'
 
-            errors = run_validator(self.get('pattern'), pat_ver)
+            try:
+                errors = run_validator(self.get('pattern'), pat_ver)
+            except RecursionError:
+                errors = ["pattern is nested too deeply to be validated"]
             if errors:
                 raise InvalidValueError(self.__class__, 'pattern', str(errors[0]))
 
